@@ -1,17 +1,48 @@
 (* C12 — The parsed model is a faithful image of the source text.
-   This file contains only the property theorems; proofs are in Front/*Proofs.v and
-   Gen/ObligationsFront.v.  Status of the full statement: see docs/front_component.md. *)
-From PFDL.Front Require Import Denter DenterProofs.
+   This file contains only the property theorems; proofs are in Front/*Proofs.v,
+   Front/RoundTrip.v and Gen/ObligationsFront.v.  What is modelled and what is not:
+   docs/front_component.md. *)
+From PFDL.Front Require Import Lexemes Render Denter DenterProofs ParserProofs RoundTrip LayoutProofs.
+From PFDL.Gen Require Import Keywords Precedence ObligationsFront.
+From Coq Require Import String List.
 
-(* Layout the language treats as insignificant does not change what the parser sees: for
-   ALL texts (lists of physical lines) that satisfy the executable well-formedness
-   predicate [layout_ok], the token stream produced by the lexer's denter (the lexemes
-   with the synthesised INDENT / DEDENT / NL tokens) is the [skeleton] of the text's
-   structure [canon] = the significant lines with their nesting depth, where the depth is
-   the rank of the line's indentation among the open indentations.  Indentation widths,
-   blank and comment-only lines (with any indentation), trailing blanks, trailing
-   comments, LF vs CR LF, a missing final newline, trailing blank lines and line breaks
-   inside struct literals do not occur in [canon]. *)
+(* Round trip, all layouts.  For EVERY text t — a list of physical lines with arbitrary
+   indentation widths (also different ones per block), blank and comment-only lines
+   anywhere and with any indentation, trailing blanks and comments, LF or CR LF per line,
+   with or without a final newline, struct literals broken over several lines — whose
+   structure [canon t] (significant lines with nesting depth = rank of their indentation
+   among the open ones) is the line forest of the program p, the front end (the lexer's
+   denter, the parser for PFDLParser.g4 with the precedence levels of the generated parser,
+   the tree visitor's checks) returns exactly p: the same structs, tasks, statements in
+   order and nesting, parameters in order, literals, expression trees, types and array
+   lengths.  p ranges over all programs satisfying the executable guard [names_ok]
+   (non-empty blocks, well-shaped attribute paths, struct literals that are objects with
+   distinct keys and no list directly inside a list, expressions in the normal form of the
+   generated parser's level table, no duplicate definitions, integer array lengths in
+   definitions); [example_names_ok] inhabits the guard. *)
+Theorem C12_roundtrip_canon :
+  forall t p, names_ok p = true -> canon t = Some (flatten 0 (forest_of p)) -> front_end t = FOk p.
+Proof. exact roundtrip_canon. Qed.
+Print Assumptions C12_roundtrip_canon.
+
+(* The same for the printer [render]: for every layout L of the family [layout] (any
+   indentation step per nesting depth, LF or CR LF, trailing blanks, trailing comments, blank
+   and comment-only lines before every line and at the end, with or without final newline)
+   and every program p of the guard, parsing the printed program gives p back.
+   [example_layout_wf] and [example_names_ok] inhabit the guards. *)
+Theorem C12_roundtrip :
+  forall L p, layout_wf L = true -> names_ok p = true -> front_end (render L p) = FOk p.
+Proof. exact roundtrip_render. Qed.
+Print Assumptions C12_roundtrip.
+
+(* every rendered text has the structure of the program *)
+Theorem C12_render_structure :
+  forall L p, layout_wf L = true -> canon (render L p) = Some (flatten 0 (forest_of p)).
+Proof. exact canon_render. Qed.
+Print Assumptions C12_render_structure.
+
+(* Layout independence of the token stream the parser sees, for ALL texts satisfying the
+   executable predicate [layout_ok] (also those that are not programs). *)
 Theorem C12_denter_skeleton :
   forall t ds, canon t = Some ds -> denter t = skeleton ds.
 Proof. exact denter_skeleton. Qed.
@@ -22,3 +53,33 @@ Theorem C12_denter_layout_independent :
                 denter t1 = denter t2.
 Proof. exact denter_layout_independent. Qed.
 Print Assumptions C12_denter_layout_independent.
+
+(* Expressions, for ANY table of precedence levels: the precedence-climbing parser reads
+   back every expression tree that is in the table's normal form. *)
+Theorem C12_expr_roundtrip_any_table : forall T nlv e f r,
+  expr_ok T nlv e = true -> layout_head r -> length (toks_expr e) < f ->
+  parse_expr T nlv (expr_fuel f) 0 (map DTok (toks_expr e) ++ r) = FOk (e, r).
+Proof. exact expr_roundtrip_any_table. Qed.
+Print Assumptions C12_expr_roundtrip_any_table.
+
+(* Known finding D14 in the model: with the levels of the generated parser '8 / 2 * 2 == 8'
+   is read as 8 / (2 * 2) == 8; with the levels the property states as (8 / 2) * 2 == 8. *)
+Theorem C12_standard_precedence_refuted :
+  front_end d14_text
+    = FOk (d14_prog (EBin OEq (EBin ODiv (ENum 8) (EBin OMul (ENum 2) (ENum 2))) (ENum 8)))
+  /\ front_end_standard d14_text
+    = FOk (d14_prog (EBin OEq (EBin OMul (EBin ODiv (ENum 8) (ENum 2)) (ENum 2)) (ENum 8))).
+Proof. exact standard_precedence_refuted. Qed.
+Print Assumptions C12_standard_precedence_refuted.
+
+(* The tables of the model are the tables of the current source (regenerated on every run). *)
+Theorem C12_precedence_levels_are_source_levels :
+  expression_levels_from_source = impl_levels /\ not_level_from_source = impl_not_level
+  /\ paren_level_from_source = impl_paren_level /\ binop_tokens_from_source = impl_binop_tokens.
+Proof. exact (conj expression_levels_tied (conj not_level_tied (conj paren_level_tied binop_tokens_tied))). Qed.
+Print Assumptions C12_precedence_levels_are_source_levels.
+
+Theorem C12_lexer_rules_are_source_rules :
+  lexer_rules_from_source = lexer_rules /\ denter_ignore_eof_from_source = denter_ignore_eof.
+Proof. exact (conj lexer_rules_tied denter_ignore_eof_tied). Qed.
+Print Assumptions C12_lexer_rules_are_source_rules.
